@@ -519,7 +519,7 @@ def run(ctx):
         ex = {"name": "dep-1", "version": "1.0", "scripts": ["b c.js", "100%.js"], "sheets": ["中文.css"]}
         d = ht.HTMLDependency("dep-1", "1.0", source={"subdir": "/nonexistent"}, script=[{"src": s} for s in ex["scripts"]], stylesheet={"href": ex["sheets"][0]})
         ctx.sample({"dependency": ex, "as_dict_urls": [s["src"] for s in d.as_dict()["script"]] + [s["href"] for s in d.as_dict()["stylesheet"]]})
-        for _ in range(ctx.budget(120, 90000)):
+        for _ in range(ctx.budget(260, 90000)):
             case = rand_case(rng)
             ctx.guard(run_case, ctx, case, scratch, witness={"case": case})
             ctx.case(case, nontrivial=hot(case))
